@@ -1,5 +1,29 @@
 import RvModel.Wire
-/- hand-model dispatch entries (grows per property) -/
+import RvModel.Gen.Dispatch
+import RvModel.Spec.C01A
+/- hand-written dispatch entries: Spec oracles and hand models (grows per property) -/
 namespace HandDispatch
-def table : List (String × Rd String) := []
+open GenDispatch Wire
+
+/-- (distribution, real observation) ↦ real -/
+def dx {S : Type} (rd : Rd S) (f : S → Float → Float) : Rd String := do
+  let _ ← Wire.next; let d ← rd; let x ← rdF; pure (wrF (f d x))
+/-- (distribution, natural observation) ↦ real -/
+def dn {S : Type} (rd : Rd S) (f : S → Nat → Float) : Rd String := do
+  let _ ← Wire.next; let d ← rd; let x ← rdN; pure (wrF (f d x))
+/-- (distribution, integer observation) ↦ real -/
+def di {S : Type} (rd : Rd S) (f : S → Int → Float) : Rd String := do
+  let _ ← Wire.next; let d ← rd; let x ← rdI; pure (wrF (f d x))
+/-- (distribution, boolean observation) ↦ real -/
+def db {S : Type} (rd : Rd S) (f : S → Bool → Float) : Rd String := do
+  let _ ← Wire.next; let d ← rd; let x ← rdB; pure (wrF (f d x))
+/-- distribution ↦ real -/
+def d0 {S : Type} (rd : Rd S) (f : S → Float) : Rd String := do
+  let _ ← Wire.next; let d ← rd; pure (wrF (f d))
+
+def tableC01A : List (String × Rd String) := [
+  ("spec.Gaussian.ln_f_real", dx rd_Gaussian Spec.Gaussian.lnPdf)
+]
+
+def table : List (String × Rd String) := tableC01A
 end HandDispatch
